@@ -88,6 +88,21 @@ static int op_generichash(int argc, char **argv, FILE *o) {
     }
     free_chunks(c, nc); hx_free(&key); if (have_s) hx_free(&salt); if (have_p) hx_free(&pers); return 0;
 }
+/* generichash.lens <outlen> <keylen>: return codes of the six BLAKE2b entry points for an (outlen, keylen) pair of ANY size ("out-of-range lengths are refused") */
+static int op_generichash_lens(int argc, char **argv, FILE *o) {
+    uint64_t ol, kl; unsigned char *out, *key; crypto_generichash_blake2b_state st; crypto_generichash_state gst; static const unsigned char m[3] = { 'a', 'b', 'c' };
+    if (argc != 2 || hx_u64(argv[0], &ol) || hx_u64(argv[1], &kl) || ol > (1u << 24) || kl > (1u << 24)) return -1;
+    out = (unsigned char *) malloc((size_t) ol + 64); key = (unsigned char *) malloc((size_t) kl + 1);
+    if (!out || !key) return -1;
+    memset(key, 0x42, (size_t) kl + 1);
+    fprintf(o, "%d", crypto_generichash_blake2b(out, (size_t) ol, m, 3, kl ? key : NULL, (size_t) kl));
+    fprintf(o, " %d", crypto_generichash_blake2b_salt_personal(out, (size_t) ol, m, 3, kl ? key : NULL, (size_t) kl, NULL, NULL));
+    fprintf(o, " %d", crypto_generichash_blake2b_init(&st, kl ? key : NULL, (size_t) kl, (size_t) ol));
+    fprintf(o, " %d", crypto_generichash_blake2b_init_salt_personal(&st, kl ? key : NULL, (size_t) kl, (size_t) ol, NULL, NULL));
+    fprintf(o, " %d", crypto_generichash(out, (size_t) ol, m, 3, kl ? key : NULL, (size_t) kl));
+    fprintf(o, " %d", crypto_generichash_init(&gst, kl ? key : NULL, (size_t) kl, (size_t) ol));
+    free(out); free(key); return 0;
+}
 static int op_shorthash(int argc, char **argv, FILE *o) {
     buf_t k, m; unsigned char h[16];
     if (argc != 3 || hx_hex(argv[1], &k)) return -1;
@@ -126,17 +141,17 @@ static int op_hkdf##SFX##_expand(int argc, char **argv, FILE *o) { \
 HKDF_OPS(256, 32)
 HKDF_OPS(512, 64)
 static int op_kdf_blake2b(int argc, char **argv, FILE *o) {
-    uint64_t n, id; buf_t ctx, key; unsigned char out[256]; int rc;
-    if (argc != 4 || hx_u64(argv[0], &n) || n > 200 || hx_u64(argv[1], &id) || hx_hex(argv[2], &ctx)) return -1;
+    uint64_t n, id; buf_t ctx, key; static unsigned char out[(1 << 17) + 64]; int rc;
+    if (argc != 4 || hx_u64(argv[0], &n) || n > (1 << 17) || hx_u64(argv[1], &id) || hx_hex(argv[2], &ctx)) return -1;
     if (hx_hex(argv[3], &key) || key.n != 32 || ctx.n != 8) { hx_free(&ctx); return -1; }
     rc = crypto_kdf_blake2b_derive_from_key(out, (size_t) n, id, (const char *) ctx.p, key.p);
-    if (rc == 0) { unsigned char o2[256]; if (crypto_kdf_derive_from_key(o2, (size_t) n, id, (const char *) ctx.p, key.p) != 0 || memcmp(out, o2, n)) fputs("DEFAULT-DIFFERS ", o); }
+    if (rc == 0) { static unsigned char o2[(1 << 17) + 64]; if (crypto_kdf_derive_from_key(o2, (size_t) n, id, (const char *) ctx.p, key.p) != 0 || memcmp(out, o2, n)) fputs("DEFAULT-DIFFERS ", o); }
     if (rc != 0) fprintf(o, "%d", rc); else { fputs("0 ", o); hx_put_hex(o, out, n); }
     hx_free(&ctx); hx_free(&key); return 0;
 }
 const hx_op ops_c04[] = {
     {"hash.sha256", op_sha256}, {"hash.sha512", op_sha512}, {"auth.hmacsha256", op_hmac256}, {"auth.hmacsha512", op_hmac512},
-    {"auth.hmacsha512256", op_hmac512256}, {"auth.verify", op_auth_verify}, {"generichash", op_generichash}, {"shorthash", op_shorthash},
+    {"auth.hmacsha512256", op_hmac512256}, {"auth.verify", op_auth_verify}, {"generichash", op_generichash}, {"generichash.lens", op_generichash_lens}, {"shorthash", op_shorthash},
     {"onetimeauth", op_onetimeauth}, {"kdf.hkdf256.extract", op_hkdf256_extract}, {"kdf.hkdf256.expand", op_hkdf256_expand},
     {"kdf.hkdf512.extract", op_hkdf512_extract}, {"kdf.hkdf512.expand", op_hkdf512_expand}, {"kdf.blake2b", op_kdf_blake2b}, {NULL, NULL}
 };
